@@ -14,6 +14,19 @@ pub type TV = (Seq<char>, Seq<char>);
 
 // ---- HashMap<String,String> through shims whose contracts are stated over the string VIEWS (assumed std contracts) ----
 pub uninterp spec fn smap(m: HashMap<String, String>) -> Map<Seq<char>, Seq<char>>;
+// HashMap iteration through a snapshot: every entry exactly once (distinct keys), unspecified order
+#[verifier::external_body]
+pub fn vx_hm_entries(m: &HashMap<String, String>) -> (r: Vec<(String, String)>)
+    ensures r@.len() == smap(*m).dom().len(),
+        forall|i: int| 0 <= i < r@.len() ==> smap(*m).contains_key((#[trigger] r@[i]).0@) && smap(*m)[r@[i].0@] == r@[i].1@,
+        forall|i: int, j: int| 0 <= i < j < r@.len() ==> (#[trigger] r@[i]).0@ != (#[trigger] r@[j]).0@
+{ unimplemented!() }
+// every definition of the table is in the list, once, with its value
+pub open spec fn lists_all(m: Map<Seq<char>, Seq<char>>, l: Seq<(String, String)>) -> bool {
+    l.len() == m.dom().len()
+    && (forall|i: int| 0 <= i < l.len() ==> m.contains_key((#[trigger] l[i]).0@) && m[l[i].0@] == l[i].1@)
+    && (forall|i: int, j: int| 0 <= i < j < l.len() ==> (#[trigger] l[i]).0@ != (#[trigger] l[j]).0@)
+}
 #[verifier::external_body]
 pub fn vx_hm_insert(m: &mut HashMap<String, String>, k: String, v: String)
     ensures smap(*final(m)) == smap(*old(m)).insert(k@, v@)
@@ -204,6 +217,7 @@ impl Shell {
 //@FN Shell::is_alias
 //@FN Shell::remove_alias
 //@FN Shell::get_alias_content
+//@FN Shell::get_alias_list
 //@FN Shell::get_env
 }
 
@@ -340,6 +354,15 @@ is_alias = Fn(S, 'is_alias', impl='Shell', pre_rewrites=HM, ret='r',
     ensures=[('C17.table.is_alias', 'r == smap(self.aliases).contains_key(name@)')])
 remove_alias = Fn(S, 'remove_alias', impl='Shell', pre_rewrites=HM, ret='r',
     ensures=[('C17.table.unalias_removes_exactly_n', 'smap(final(self).aliases) == smap(old(self).aliases).remove(name@) && r == smap(old(self).aliases).contains_key(name@)')])
+# C17: `alias` prints EVERY definition: the list handed to the printing code holds each entry of the table exactly once, with its value
+get_alias_list = Fn(S, 'get_alias_list', impl='Shell', ret='r',
+    pre_rewrites=[Rw('for (name, value) in &self.aliases {', 'let __ev = vx_hm_entries(&self.aliases); for (name, value) in __ev.iter() {', rule='R12',
+                     why='HashMap iteration through a snapshot shim: every entry once, unspecified order')],
+    let_types={'result': 'Vec<(String, String)>'},
+    ensures=[('C17.listing.every_definition_is_listed_exactly_once', 'lists_all(smap(self.aliases), r@)')],
+    loops={0: Loop(invariant=[('C17.inv.listing.prefix',
+        'lists_all(smap(self.aliases), __ev@) && result@.len() == __i0 && forall|i: int| 0 <= i < result@.len() ==> (#[trigger] result@[i]).0@ == __ev@[i].0@ && result@[i].1@ == __ev@[i].1@')])},
+)
 get_alias_content = Fn(S, 'get_alias_content', impl='Shell', pre_rewrites=HM, ret='r',
     ensures=[('C17.table.content',
               'match r { Some(v) => smap(self.aliases).contains_key(name@) && v@ == smap(self.aliases)[name@] && v@.len() > 0, '
@@ -538,7 +561,7 @@ do_expansion = Fn(S, 'do_expansion', add_params='Tracked(tr): Tracked<&mut PassT
               'final(tr).t == old(tr).t || final(tr).t == old(tr).t + seq![0int, 1int, 2int, 3int, 4int, 5int, 6int]')],
 )
 
-UNIT = Unit('U-EXP2', TEMPLATE, fns=[common.has_operator_fn(), common.in_assignment_prefix_fn(), add_alias, is_alias, remove_alias, get_alias_content, get_env, format_alias, expand_one_env, expand_alias, expand_home, expand_env, do_expansion],
+UNIT = Unit('U-EXP2', TEMPLATE, fns=[common.has_operator_fn(), common.in_assignment_prefix_fn(), add_alias, is_alias, remove_alias, get_alias_content, get_alias_list, get_env, format_alias, expand_one_env, expand_alias, expand_home, expand_env, do_expansion],
             types=[TypeItem('src/types.rs', 'struct', 'LineInfo'), TypeItem('src/types.rs', 'struct', 'Job'),
                    TypeItem('src/shell.rs', 'struct', 'Shell', rewrites=[Rw('types::Job', 'Job', rule='R0')])],
             props=('C17', 'C10', 'C12', 'C13', 'C01', 'C05'))
